@@ -65,3 +65,24 @@ Theorem C01_marlin_keys :
     (s <= D)%nat /\ ck_max_degree ck = D /\ ck_bounds ck = option_map sort_dedup bounds.
 Proof. exact @mtrim_keyok. Qed.
 Print Assumptions C01_marlin_keys.
+
+(* multilinear PST (multilinear_pc): under every trimmed key, commit / open / check of the true value of
+   every table of 2^n values at every point succeeds, and the commitment is g scaled by the multilinear
+   extension at the trapdoor point *)
+From Coq Require Import Arith List.
+From PC Require Import Schemes.MLPC Proofs.MLPCFacts.
+Theorem C01_multilinear_pst_complete :
+  forall (FO : FieldOps) (FL : FieldLaws FO) nv g h t p snv ck f z,
+    length t = nv -> ml_setup nv g h t = Ok p -> ml_trim p snv = Ok ck -> (1 <= snv)%nat ->
+    length f = (2 ^ snv)%nat -> length z = snv ->
+    exists c pf, ml_commit ck snv f = Ok c /\ ml_open ck snv f z = Ok pf /\ length pf = snv /\
+                 c = g * mle_eval f (skipn (nv - snv) t) /\
+                 ml_check ck c z (mle_eval f z) pf = Ok true.
+Proof. exact @ml_complete. Qed.
+Print Assumptions C01_multilinear_pst_complete.
+
+Theorem C01_multilinear_division_exact :
+  forall (FO : FieldOps) (FL : FieldLaws FO) t z r, length z = length t -> length r = (2 ^ length t)%nat ->
+    mle_eval r t - mle_eval r z = qsum t z r.
+Proof. exact @mle_division_exact. Qed.
+Print Assumptions C01_multilinear_division_exact.
